@@ -354,9 +354,9 @@ func newFakeCache(c *config) *fakeCache {
 	return fc
 }
 
-func (fc *fakeCache) EstimatedTags() int                         { return 2 }
-func (fc *fakeCache) IpSink() chan<- gostatsd.Source             { return fc.ipSink }
-func (fc *fakeCache) InfoSource() <-chan gostatsd.InstanceInfo   { return fc.info }
+func (fc *fakeCache) EstimatedTags() int                       { return 2 }
+func (fc *fakeCache) IpSink() chan<- gostatsd.Source           { return fc.ipSink }
+func (fc *fakeCache) InfoSource() <-chan gostatsd.InstanceInfo { return fc.info }
 func (fc *fakeCache) Peek(ip gostatsd.Source) (*gostatsd.Instance, bool) {
 	fc.mu.Lock()
 	defer fc.mu.Unlock()
